@@ -59,6 +59,11 @@ def enc_desc(d):
 # ---- to_model ---------------------------------------------------------------------------
 
 def to_model(case, obs):
+    if case["mode"] == "alloc":
+        c = case["cfg"]
+        term = "alloc_run %d %d %d [%s]" % (c["lo"], c["hi"], c["lo"],
+                                            "; ".join("[%s]" % "; ".join(str(p) for p in used) for used in case["script"]))
+        return term, [], []
     evs, probes, problems = [], [], []
     steps = obs.get("steps", [])
     for i, cmd in enumerate(case["script"]):
@@ -90,6 +95,8 @@ def to_model(case, obs):
             if o.get("r") == "ok":
                 tag = cmd[4] if cmd[1] == "data" else 0
                 e = "NRaw %s" % pkt_coq([o["src"][0], o["dst"][0], 1, o["src"][1], o["dst"][1], FLAGS[cmd[1]], tag])
+        elif n == "set_cursor":
+            e = "NSetCursor %d %d" % (cmd[1], cmd[2])
         elif n == "egress":
             e = "NEgress"
         elif n == "pump":
@@ -112,6 +119,10 @@ def compare(case, obs, model, probes):
         return "implementation panicked: %s" % obs["panic"]
     if isinstance(model, tuple) and model and model[0] == "error":
         return "model evaluation failed: %s" % str(model[1])[-400:]
+    if case["mode"] == "alloc":
+        if list(model) != obs["res"]:
+            return "PortAllocator(%d..=%d): implementation %s, model %s" % (case["cfg"]["lo"], case["cfg"]["hi"], obs["res"], list(model))
+        return None
     for idx, kind, i in probes:
         if idx >= len(model):
             return "model produced too few outputs"
@@ -265,6 +276,9 @@ def gen_net(rng, nhosts=None, ncmds=None):
     for _ in range(ncmds or rng.randrange(12, 45)):
         r = rng.random()
         h = rng.randrange(n)
+        if rng.random() < 0.04:
+            # near the end of the ephemeral range, so that port 0 wraps around
+            g.add(["set_cursor", h, rng.choice([65535, 65534, 65533, 49152, 49153, 60000])])
         if r < 0.2:
             g.add(["bind_udp", h, bind_addr(rng, hosts, h), rng.choice(PORTS)])
         elif r < 0.32:
@@ -419,6 +433,51 @@ def gen_demux_matrix():
                 script.append(["recv_all"])
                 out.append({"mode": "net", "cfg": {"hosts": hosts}, "script": script, "flavour": "demux-matrix"})
     return out
+
+
+def gen_alloc(rng):
+    lo = rng.choice([1, 10, 1000, 49152, 65530])
+    size = rng.randrange(1, 7)
+    hi = min(65535, lo + size - 1)
+    ports = list(range(lo, hi + 1))
+    steps = []
+    for _ in range(rng.randrange(2, 12)):
+        k = rng.choice([0, 1, len(ports) // 2, len(ports) - 1, len(ports)])
+        steps.append(sorted(rng.sample(ports, max(0, min(len(ports), k)))))
+    return {"mode": "alloc", "cfg": {"lo": lo, "hi": hi}, "script": steps, "flavour": "alloc"}
+
+
+def gen_alloc_exhaustive():
+    """ranges of size 1..3, every sequence of two in-use sets, then one unconstrained allocation"""
+    out = []
+    for size in (1, 2, 3):
+        lo = 10
+        ports = list(range(lo, lo + size))
+        subsets = [[p for i, p in enumerate(ports) if m >> i & 1] for m in range(1 << size)]
+        for a in subsets:
+            for b in subsets:
+                out.append({"mode": "alloc", "cfg": {"lo": lo, "hi": lo + size - 1}, "script": [a, b, [], a], "flavour": "alloc-exhaustive"})
+    return out
+
+
+def gen_wrap(rng):
+    """binds to port 0 around the end of the ephemeral range with ports squatted at several addresses"""
+    hosts = [["10.0.0.1", "10.0.0.2"], ["10.0.1.1"]]
+    script = []
+    for p in rng.sample([65533, 65534, 65535, 49152, 49153], rng.randrange(0, 4)):
+        script.append([rng.choice(["bind_udp", "listen"]), 0, rng.choice(["10.0.0.1", "10.0.0.2", "127.0.0.1", "0.0.0.0"]), p])
+    script.append(["set_cursor", 0, rng.choice([65533, 65534, 65535])])
+    for _ in range(rng.randrange(3, 9)):
+        r = rng.random()
+        if r < 0.6:
+            script.append([rng.choice(["bind_udp", "listen"]), 0, rng.choice(["10.0.0.1", "127.0.0.1", "0.0.0.0", "10.0.0.2"]), 0])
+        elif r < 0.8:
+            script.append(["connect", 0, ["10.0.1.1", 9]])
+        else:
+            nh = sum(1 for c in script if c[0] in CREATORS)
+            if nh:
+                script.append(["close", rng.randrange(nh)])
+    return {"mode": "net", "cfg": {"hosts": hosts}, "script": script, "flavour": "wrap"}
 
 
 def case_signature(case):
